@@ -6,6 +6,8 @@ use crate::report::*;
 
 #[path = "c08/systems.rs"]
 mod systems;
+#[path = "c08/csystems.rs"]
+mod csystems;
 #[path = "c08/polys.rs"]
 mod polys;
 #[path = "c08/steff.rs"]
@@ -17,7 +19,7 @@ pub fn meta() -> CheckMeta {
     CheckMeta {
         id: "C08",
         level: "exploration",
-        rule: "cases: newton and secant on G-rootn systems F(x)=A(x-r)+eps*Q(x-r), dim 1-4, cond(A) 1..1e3, roots at/near the origin and near +-100, starts inside the root-centred Newton radius (h = |A^-1| Lip(F') |x0-r| <= 0.25 newton, <= 0.02 secant), on the root, at the origin, affine members from arbitrary starts, exactly singular inconsistent affine systems and exhausted caps (Err expected); newton_polynomial on polynomials of degree 1-8 expanded from separated roots (real and complex) started inside the rigorous Newton basin of a simple root, on the root and at exactly 0; muller_polynomial from three distinct points; steffensen on a catalogue and on parametrised families of contractions (|g'| <= 0.7 near the fixed point) with tolerances 1e-2..1e-13. A case is non-trivial when it needed >= 2 iterations, or started on the root / at the origin, or Err is the expected outcome; distinct = hash of (routine, problem, start, parameters)".into(),
+        rule: "cases: newton and secant on G-rootn systems F(x)=A(x-r)+eps*Q(x-r), dim 1-4, cond(A) 1..1e3, roots at/near the origin and near +-100, starts inside the root-centred Newton radius (h = |A^-1| Lip(F') |x0-r| <= 0.25 newton, <= 0.02 secant), on the root, at the origin, affine members from arbitrary starts, exactly singular inconsistent affine systems and exhausted caps (Err expected); affine systems over Complex<f64> (random complex matrices with controlled conditioning; Gaussian-integer triangular matrices with dyadic roots, dyadic finite-difference widths and a start an isotropic vector (1, +-i) away from the root, so that the first step lands on the root exactly); newton_polynomial on polynomials of degree 1-8 expanded from separated roots (real and complex) started inside the rigorous Newton basin of a simple root, on the root and at exactly 0; muller_polynomial from three distinct points; steffensen on a catalogue and on parametrised families of contractions (|g'| <= 0.7 near the fixed point) with tolerances 1e-2..1e-13. A case is non-trivial when it needed >= 2 iterations, or started on the root / at the origin, or Err is the expected outcome; distinct = hash of (routine, problem, start, parameters)".into(),
         assumptions: vec![
             "systems: Ok(x) must satisfy |x-r| <= 4 tol max(1,|r|) + 64 eps cond(A) (1+|r|); calls of f <= n_max (newton; jac likewise), <= n_max + 2 dim + 1 (secant)".into(),
             "newton_polynomial: |x-z| <= 4 tol + 64 eps (ptilde(|z|)/|p'(z)| + |z|); muller: |p(z)| <= 4 tol |p'(z)| + 64 eps ptilde(|z|), an Err of muller is counted, not flagged".into(),
@@ -150,6 +152,7 @@ mod degenerate {
 pub fn stages(ctx: &Ctx) -> Vec<Stage> {
     let mut st = vec![];
     st.extend(systems::stages(ctx));
+    st.extend(csystems::stages(ctx));
     st.extend(polys::stages(ctx));
     st.extend(steff::stages(ctx));
     let seed = ctx.seed;
@@ -160,6 +163,7 @@ pub fn stages(ctx: &Ctx) -> Vec<Stage> {
 pub fn thresholds(ctx: &Ctx, rep: &Report) -> Vec<Threshold> {
     let mut t = vec![];
     t.extend(systems::thresholds(ctx, rep));
+    t.extend(csystems::thresholds(ctx, rep));
     t.extend(polys::thresholds(ctx, rep));
     t.extend(steff::thresholds(ctx, rep));
     t.push(Threshold { what: "newton_polynomial: degenerate starts (critical point / overflow)".into(), required: ctx.tier.pick(3_000.0, 80_000.0), observed: rep.counter("newton_polynomial/degenerate_starts") as f64 });
